@@ -153,44 +153,49 @@ func genFaults(r *common.Rng, c *tcase, nblocks int) {
 }
 
 // probe adds the tree once without faults to learn the block sizes, so that
-// shard limits can be put exactly at and next to block boundaries.
-func probe(ctx context.Context, c tcase) []int {
+// shard limits can be put exactly at and next to block boundaries. Only the
+// part of the stream whose order is fixed (everything before go-mfs flushes
+// the first directory with entries) is used for boundaries, so that the
+// generated input is the same on every run.
+func probe(ctx context.Context, c tcase) (prefix []int, total, max int) {
 	top, ok := parseTree(c.tree)
 	if !ok {
-		return nil
+		return nil, 0, 0
 	}
 	p := c
 	p.mode, p.local, p.src, p.format = "single", false, "mem", "unixfs"
 	p.opts = "1:1/0/r/0/z/-/-/-/-"
 	ar := runAdd(ctx, p, "direct", top, nil, [][]int{{0}}, nil, nil, nil)
 	if ar.rec == nil {
-		return nil
+		return nil, 0, 0
 	}
 	seen := map[string]bool{}
-	var sizes []int
+	inPrefix := true
 	for _, b := range ar.rec.stream {
+		if b.dir {
+			inPrefix = false
+		}
 		if !seen[b.c.KeyString()] {
 			seen[b.c.KeyString()] = true
-			sizes = append(sizes, b.size)
+			total += b.size
+			if b.size > max {
+				max = b.size
+			}
+			if inPrefix {
+				prefix = append(prefix, b.size)
+			}
 		}
 	}
-	return sizes
+	return
 }
 
 // pickLimit chooses a shard size limit for a stream of block sizes.
-func pickLimit(r *common.Rng, sizes []int) uint64 {
-	total, max := 0, 0
-	for _, s := range sizes {
-		total += s
-		if s > max {
-			max = s
-		}
-	}
-	switch r.Intn(10) {
+func pickLimit(r *common.Rng, sizes []int, total, max int) uint64 {
+	switch r.Intn(20) {
 	case 0:
 		return uint64(total + 1 + r.Intn(50)) // one shard
 	case 1:
-		return uint64(total) // the last block does not fit any more
+		return uint64(total) // everything but the last block fits one shard
 	case 2:
 		if max > 0 {
 			return uint64(max - r.Intn(2)) // some block can never fit
@@ -198,18 +203,21 @@ func pickLimit(r *common.Rng, sizes []int) uint64 {
 		return 0
 	case 3:
 		return uint64(max + 1)
-	case 4, 5, 6:
+	case 4, 5, 6, 7, 8, 9, 10:
 		// exactly at a boundary of a run of blocks, or one off
 		if len(sizes) > 0 {
 			i := r.Intn(len(sizes))
+			if r.Bool() {
+				i = 0
+			}
 			j := i + r.Intn(len(sizes)-i)
 			s := 0
 			for k := i; k <= j; k++ {
 				s += sizes[k]
 			}
 			v := s + r.Range(-1, 1)
-			if v < 0 {
-				v = 0
+			if v <= max && r.Chance(9, 10) {
+				v = max + 1 + r.Intn(3)
 			}
 			return uint64(v)
 		}
@@ -217,7 +225,7 @@ func pickLimit(r *common.Rng, sizes []int) uint64 {
 	}
 	parts := r.Range(2, 6)
 	v := total/parts + r.Intn(max+2)
-	if v < max+1 && r.Chance(3, 4) {
+	if v < max+1 {
 		v = max + 1 + r.Intn(20)
 	}
 	return uint64(v)
@@ -317,7 +325,11 @@ func gen(ctx context.Context, r *common.Rng, k, total int, tier string) tcase {
 	c.tree = entriesString(top.names, top.kids)
 
 	// malformed / refused inputs
-	switch r.Intn(40) {
+	mal := r.Intn(40)
+	if c.format == "car" {
+		mal = 99
+	}
+	switch mal {
 	case 0:
 		c.ip.chunker = badChunkers[r.Intn(len(badChunkers))]
 	case 1:
@@ -329,15 +341,17 @@ func gen(ctx context.Context, r *common.Rng, k, total int, tier string) tcase {
 	}
 
 	c.allocs = genAllocs(r)
-	sizes := probe(ctx, c)
+	sizes, totalSize, maxSize2 := probe(ctx, c)
 	limit := uint64(1 << 30)
 	if c.mode == "shard" {
-		limit = pickLimit(r, sizes)
+		limit = pickLimit(r, sizes, totalSize, maxSize2)
 	} else if r.Bool() {
 		limit = uint64(r.Intn(100000))
 	}
 	c.opts = genOpts(r, limit, 0)
-	genFaults(r, &c, len(sizes))
+	if c.route == "direct" {
+		genFaults(r, &c, len(sizes))
+	}
 	return c
 }
 
@@ -394,7 +408,14 @@ func genStream(r *common.Rng, k, total int, tier string) tcase {
 		c.tree = "syn:-"
 	}
 	c.allocs = genAllocs(r)
-	limit := pickLimit(r, sizes)
+	tot, mx := 0, 0
+	for _, s := range sizes {
+		tot += s
+		if s > mx {
+			mx = s
+		}
+	}
+	limit := pickLimit(r, sizes, tot, mx)
 	if len(sizes) > 5000 {
 		limit = uint64(len(sizes)*4 + 1 + r.Intn(3)*4)
 		if r.Chance(1, 3) {
